@@ -9,7 +9,7 @@ from ..core import REPO
 from .. import modgen
 from ..typedmodel import Model
 
-N_CASES = {"quick": 600, "thorough": 500000}
+N_CASES = {"quick": 2400, "thorough": 500000}
 TIME_BUDGET = {"quick": 60, "thorough": 270}
 META = {
     "rule": "generated class models (3 classes x 4 scalar methods with 0-4 parameters, every prefix required / rest defaulted, defaults of "
